@@ -3,9 +3,11 @@ package mon
 import (
 	"encoding/json"
 	"fmt"
+	"sort"
 	"strings"
 
 	"verif/harness/gen"
+	"verif/harness/ref"
 )
 
 // Equality must depend on values only, never on how the Go data is laid out in memory.  Two streams
@@ -172,6 +174,41 @@ func sharedBackingRun(c *Ctx, idx int) {
 		}
 		if !SameOutcome(la, lt, false) {
 			c.Report(Violation{Rule: "C20/layout-dependent", Expr: text, Data: fmt.Sprintf("x, y: %d views %v over two backing arrays of %d elements that differ at index %d; %s", nv, views, n, diffAt, clipS(gen.Describe(tree), 300)), Got: ShowOut(la) + "  (arrays share their backing array)", Want: ShowOut(lt) + "  (deep copy of the same document)", Features: map[string]string{"stream": "shared-backing"}})
+		}
+		c.Nontrivial(text, fmt.Sprint(idx))
+	}
+	// views of ONE backing array against each other (same first element, different lengths), and
+	// slices the expression itself cuts from an array compared with their source: against the deep
+	// copy, and - where no null is involved, so that a bare slice keeps every element - against the
+	// constant answer (a prefix shorter than its source never equals it)
+	hasNil := false
+	for _, v := range left {
+		if v == nil {
+			hasNil = true
+		}
+	}
+	consts := map[string]string{"ox.q[:2] == ox.q": "false", "ox.q[:-1] == ox.q": "false", "ox.q == ox.q[:-1]": "false", "ox.q[:2] != ox.q": "true", "ox.q[0:1] == ox.q[0:2]": "false", "contains([ox.q[:2]], ox.q)": "false", "contains([ox.q], ox.q[:-1])": "false",
+		"ox.q[:] == ox.q": "true", "ox.q[1:] == ox.q": "false", "[ox.q[:2], ox.q] | @[0] == @[1]": "false", "let $a = ox.q in $a[:2] == $a": "false", "let $a = ox.q in [$a[:1], $a[:2], $a][?@ == $a] | length(@)": "1", "ox.p == ox.q": "false", "ox.q == ox.p": "false", "[ox.p] == [ox.q]": "false", "ox.p != ox.q": "true",
+		"{a: ox.p} == {a: ox.q}": "false", "ox.q[:-1] == ox.p": "true", "ox.p == ox.q[:-1]": "true", "ox.q[::1] == ox.q": "true", "ox.q[:1] == ox.q[:1]": "true", "(ox.q | [:2]) == ox.q": "false", "ox.q[?`true`] == ox.q": "true"}
+	var texts []string
+	for t := range consts {
+		texts = append(texts, t)
+	}
+	sort.Strings(texts)
+	texts = append(texts, "x[0] == x[-1]", "x[-1] == x[0]", "x[0] != x[1]", "contains([x[0]], x[-1])", "x[?@ == $.x[0]] | length(@)", "x[?@ == $.x[-1]] | length(@)", "[x[0], x[1]] == [x[1], x[0]]", "y[0] == y[-1]", "map(&(@ == $.x[-1]), x)", "sort_by(x, &length(@)) | @[0] == @[-1]", "group_by(x, &to_string(length(@))) | length(@)")
+	for _, text := range texts {
+		la := c.LibSearch(text, doc)
+		lt := c.LibSearch(text, tree)
+		if la.Panic != nil || lt.Panic != nil {
+			continue
+		}
+		if !SameOutcome(la, lt, false) {
+			c.Report(Violation{Rule: "C20/layout-dependent", Expr: text, Data: fmt.Sprintf("x: %d views %v over one backing array of %d elements; %s", nv, views, n, clipS(gen.Describe(tree), 300)), Got: ShowOut(la) + "  (arrays share their backing array)", Want: ShowOut(lt) + "  (deep copy of the same document)", Features: map[string]string{"stream": "shared-backing"}})
+		}
+		if want, ok := consts[text]; ok && !hasNil && lt.Err == nil {
+			if got := ref.Show(lt.M); lt.MErr != nil || got != want {
+				c.Report(Violation{Rule: "C20/slice-vs-source", Expr: text, Data: clipS(gen.Describe(tree), 300), Got: ShowOut(lt), Want: want, Features: map[string]string{"stream": "shared-backing"}})
+			}
 		}
 		c.Nontrivial(text, fmt.Sprint(idx))
 	}
